@@ -9,4 +9,4 @@ if ! go test -vet=off -count=1 ./... > /tmp/fixcommit.log 2>&1; then
 fi
 tail -4 /tmp/fixcommit.log
 git commit -qa -F "$1"
-git log --oneline | head -1
+git log --oneline -1
